@@ -73,7 +73,7 @@ def run(ctx: Ctx) -> None:
     ctx.rule = RULE
     cases = corpus("C13")
     cases += grid()
-    n = ctx.budget(quick=4000, thorough=80000)
+    n = ctx.budget(quick=4000, thorough=50000)
     cases += gen_cases(ctx, n, p_missing=0.25, per_id_flags=0.4)
     g.check_cases(ctx, "C13", cases)
 
